@@ -125,7 +125,7 @@ Qed.
 Lemma wspec_functional : forall w P j rid idx src d,
   NoDup (world_ids w) -> In P (w_pipes w) ->
   nth_error (p_nodes P) j = Some (rid, SPersist) -> nth_error (p_parts P) idx = Some src ->
-  (wspec w (rid, Z.of_nat idx) d <-> d = plain_rev (rev_prefix j (p_nodes P)) src).
+  (wspec w (rid, Z.of_nat idx) d <-> d = plain_rev (Z.of_nat idx) (rev_prefix j (p_nodes P)) src).
 Proof.
   intros w P j rid idx src d Hnd HP Hj Hsrc. split.
   - intros [P' [j' [idx' [src' [HP' [Hj' [Hi [Hs' ->]]]]]]]]. simpl in *.
@@ -138,7 +138,7 @@ Proof.
 Qed.
 
 Lemma nodes_ok_suffixes : forall (S : key -> list A -> Prop) rn i src,
-  (forall down rid up, rn = down ++ (rid, SPersist) :: up -> forall d, S (rid, i) d <-> d = plain_rev up src) ->
+  (forall down rid up, rn = down ++ (rid, SPersist) :: up -> forall d, S (rid, i) d <-> d = plain_rev i up src) ->
   nodes_ok A S rn i src.
 Proof.
   induction rn as [|[rid st] up IH]; intros i src H; simpl; auto. split.
@@ -231,7 +231,7 @@ Proof.
     unfold wf_world in Hwf. rewrite Forall_forall in Hwf. destruct (Hwf P HP) as [cx [Ecx Hlt]].
     rewrite Ecx. destruct (nth_error_lt_Some _ _ Hlt) as [m Em]. rewrite Em.
     destruct j as [|j']; [simpl; auto|].
-    destruct (nth_error (p_nodes P) j') as [[rid [f|p|g|h0|]]|] eqn:EN; simpl; auto.
+    destruct (nth_error (p_nodes P) j') as [[rid [f|p|g|fi0|h0|]]|] eqn:EN; simpl; auto.
     repeat split; auto.
     + apply st_ok_set; auto. apply (delete_parts_ok A (wspec w)). eapply st_ok_nth; eauto.
     + apply set_nth_length.
